@@ -1,72 +1,120 @@
 /-
 C10 — Stepping forward or backward moves exactly one day and stops only at the limits.
-(partial: day-number bookkeeping, the limits, and fusing of the open-ended iterators; that
-the stepped date is `at_jdn (jdn ± 1)` is being built on the reforming-calendar lemmas)
+
+`succ` / `pred` do not recompute the date from the day number: they bump the day-of-year,
+fall into the next (previous) year that has dates when the year is over, and re-derive
+month and day.  The theorems say the result is nevertheless exactly `at_jdn (jdn ± 1)`,
+for every calendar a caller can hold (`WF`) and every 32-bit day number.
 -/
 import JulianVerif.Model.Iter
-import JulianVerif.Lemmas.Arith
+import JulianVerif.Lemmas.StepInst
 set_option linter.unusedSimpArgs false
 namespace JV.C10
-open JV
+open JV Spec
 
-/-- a successor carries the next day number and the same calendar -/
-theorem succ_jdn (d d' : Date) (h : d.succ = some d') : d'.jdn = d.jdn + 1 ∧ d'.calendar = d.calendar := by
-  simp only [Date.succ] at h
-  split at h
-  · cases h
-  · split at h
-    · cases h; exact ⟨rfl, rfl⟩
-    · split at h
-      · cases h; exact ⟨rfl, rfl⟩
-      · cases h
-    · cases h
+/-- **the successor of a date is the calendar's date for the next day number** — across
+month ends, year ends, the reformation gap, skipped months and skipped years — **and is
+absent only at day number 2^31-1** -/
+theorem succ_spec (c : Calendar) (hc : WF c) (j : Int) (hj : InI32 j) (d : Date)
+    (h : c.atJdn? j = some d) :
+    d.succ = if j = 2147483647 then none else c.atJdn? (j + 1) := by
+  obtain ⟨T⟩ := hc.tiling
+  exact T.succ_spec j hj d h
 
-theorem pred_jdn (d d' : Date) (h : d.pred = some d') : d'.jdn = d.jdn - 1 ∧ d'.calendar = d.calendar := by
-  simp only [Date.pred] at h
-  split at h
-  · cases h
-  · split at h
-    · cases h; exact ⟨rfl, rfl⟩
-    · cases h
+/-- **the predecessor is the date of the previous day number, absent only at -2^31** -/
+theorem pred_spec (c : Calendar) (hc : WF c) (j : Int) (hj : InI32 j) (d : Date)
+    (h : c.atJdn? j = some d) :
+    d.pred = if j = -2147483648 then none else c.atJdn? (j - 1) := by
+  obtain ⟨T⟩ := hc.tiling
+  exact T.pred_spec j hj d h
 
-/-- there is no successor at day number 2^31-1 and no predecessor at -2^31; a returned
-date always has a 32-bit day number -/
-theorem limits (d : Date) :
-    (d.jdn = 2147483647 → d.succ = none) ∧ (d.jdn = -2147483648 → d.pred = none)
-    ∧ (∀ d', d.succ = some d' → InI32 d.jdn → InI32 d'.jdn)
-    ∧ (∀ d', d.pred = some d' → InI32 d.jdn → InI32 d'.jdn) := by
-  refine ⟨?_, ?_, ?_, ?_⟩
-  · intro h; simp [Date.succ, h, inI32]
-  · intro h; simp [Date.pred, h, inI32]
-  · intro d' h hd
-    have hj := (succ_jdn d d' h).1
-    simp only [Date.succ] at h
-    split at h
-    · cases h
-    · rename_i hc
-      have hin : inI32 (d'.jdn) = true := by
-        rw [hj]; cases hh : inI32 (d.jdn + 1) <;> simp [hh] at hc ⊢
-      exact (inI32_iff _).mp hin
-  · intro d' h hd
-    have hj := (pred_jdn d d' h).1
-    simp only [Date.pred] at h
-    split at h
-    · cases h
-    · rename_i hc
-      have hin : inI32 (d'.jdn) = true := by
-        rw [hj]; cases hh : inI32 (d.jdn - 1) <;> simp [hh] at hc ⊢
-      exact (inI32_iff _).mp hin
+/-- the state of an open-ended iterator after `n` calls of `next` -/
+def iterate (step : Option Date → Option Date × Option Date) : Nat → Option Date → Option Date
+  | 0, st => st
+  | n + 1, st => iterate step n (step st).2
 
-/-- the four open-ended iterators stay ended once they have ended -/
+/-- the date of day `j` when `j` is a 32-bit day number, nothing otherwise -/
+def dateAt (c : Calendar) (j : Int) : Option Date :=
+  if -2147483648 ≤ j ∧ j ≤ 2147483647 then c.atJdn? j else none
+
+/-- **`later` yields the consecutive following days, ends exactly at the range limit and
+stays ended**: after `n` calls its state — which is also the item just returned — is the
+date of day `j + n`, or nothing once `j + n` exceeds 2^31-1 -/
+theorem later_nth (c : Calendar) (hc : WF c) (j : Int) (hj : InI32 j) (d : Date)
+    (h : c.atJdn? j = some d) (n : Nat) :
+    iterate laterNext n (some d) = dateAt c (j + n) := by
+  induction n generalizing j d with
+  | zero =>
+    simp only [iterate, dateAt]
+    have e : j + ((0 : Nat) : Int) = j := by omega
+    rw [e, if_pos hj, h]
+  | succ n ih =>
+    simp only [iterate, laterNext, Option.bind]
+    rw [succ_spec c hc j hj d h]
+    by_cases hmax : j = 2147483647
+    · rw [if_pos hmax]
+      have : ∀ k : Nat, iterate laterNext k none = none := by
+        intro k; induction k with
+        | zero => rfl
+        | succ k ihk => simpa [iterate, laterNext] using ihk
+      rw [this]
+      simp only [dateAt]
+      rw [if_neg]; simp only [InI32] at hj; push_cast; omega
+    · rw [if_neg hmax]
+      obtain ⟨d2, hd2, _, _, _⟩ := atJdn_total c hc (j + 1)
+      rw [hd2]
+      have hj2 : InI32 (j + 1) := by simp only [InI32] at *; omega
+      rw [ih (j + 1) hj2 d2 hd2]
+      have : j + 1 + (n : Int) = j + ((n + 1 : Nat) : Int) := by push_cast; omega
+      rw [this]
+
+/-- `earlier`, symmetrically -/
+theorem earlier_nth (c : Calendar) (hc : WF c) (j : Int) (hj : InI32 j) (d : Date)
+    (h : c.atJdn? j = some d) (n : Nat) :
+    iterate earlierNext n (some d) = dateAt c (j - n) := by
+  induction n generalizing j d with
+  | zero =>
+    simp only [iterate, dateAt]
+    have e : j - ((0 : Nat) : Int) = j := by omega
+    rw [e, if_pos hj, h]
+  | succ n ih =>
+    simp only [iterate, earlierNext, Option.bind]
+    rw [pred_spec c hc j hj d h]
+    by_cases hmin : j = -2147483648
+    · rw [if_pos hmin]
+      have : ∀ k : Nat, iterate earlierNext k none = none := by
+        intro k; induction k with
+        | zero => rfl
+        | succ k ihk => simpa [iterate, earlierNext] using ihk
+      rw [this]
+      simp only [dateAt]
+      rw [if_neg]; simp only [InI32] at hj; push_cast; omega
+    · rw [if_neg hmin]
+      obtain ⟨d2, hd2, _, _, _⟩ := atJdn_total c hc (j - 1)
+      rw [hd2]
+      have hj2 : InI32 (j - 1) := by simp only [InI32] at *; omega
+      rw [ih (j - 1) hj2 d2 hd2]
+      have : j - 1 - (n : Int) = j - ((n + 1 : Nat) : Int) := by push_cast; omega
+      rw [this]
+
+/-- `and_later` / `and_earlier` include the starting date, then behave like `later` /
+`earlier`; `later` / `earlier` exclude it -/
+theorem start_inclusion (d : Date) :
+    (andLaterNext (some d)) = (some d, d.succ) ∧ (andEarlierNext (some d)) = (some d, d.pred)
+    ∧ (laterNext (some d)).1 = d.succ ∧ (earlierNext (some d)).1 = d.pred :=
+  ⟨rfl, rfl, rfl, rfl⟩
+
+/-- once ended, the four iterators stay ended -/
 theorem fused :
     laterNext none = (none, none) ∧ earlierNext none = (none, none)
-    ∧ andLaterNext none = (none, none) ∧ andEarlierNext none = (none, none) := by
-  refine ⟨rfl, rfl, rfl, rfl⟩
+    ∧ andLaterNext none = (none, none) ∧ andEarlierNext none = (none, none) :=
+  ⟨rfl, rfl, rfl, rfl⟩
 
-/-- `later` excludes and `and_later` includes the starting date -/
-theorem start_inclusion (d : Date) :
-    (andLaterNext (some d)).1 = some d ∧ (andEarlierNext (some d)).1 = some d
-    ∧ (laterNext (some d)).1 = d.succ ∧ (earlierNext (some d)).1 = d.pred := by
-  refine ⟨rfl, rfl, rfl, rfl⟩
+/-- non-vacuity: the step that used to go wrong (defect D1): Dec 30 → Dec 31 → Jan 1 in
+the calendar reforming on day 2299664 -/
+example : ∃ c, Calendar.mkReforming 2299664 = .ok c
+    ∧ (Date.mk c 1584 355 .december 30 30 2299968).succ = some ⟨c, 1584, 356, .december, 31, 31, 2299969⟩
+    ∧ (Date.mk c 1584 356 .december 31 31 2299969).succ = some ⟨c, 1585, 1, .january, 1, 1, 2299970⟩ :=
+  ⟨_, rfl, rfl, rfl⟩
 
 end JV.C10
